@@ -129,6 +129,9 @@ def main():
                    f"EXETERA_REPO={r} (tools/seeded_eval_iso.py); tier {tier}",
         "tier": tier,
     })
+    hist = meta.setdefault("history", [])
+    hist.append({"verif": meta["evaluated_at_verif_commit"], "repo": meta["evaluated_at_repo_commit"], "tier": tier,
+                 "checks": sorted(results), "caught_by": meta["caught_by"]})
     meta_p.write_text(json.dumps(meta, indent=1))
     print(d.name, "demo clean:", rc0, "demo patched:", rc1, "suite new failures:",
           None if suite_res is None else suite_res["new_failures"], "caught by:", meta["caught_by"], flush=True)
